@@ -100,19 +100,27 @@ Section RenameSheetOnName.
 End RenameSheetOnName.
 
 (* ---- update_defined_name on one stored cell formula (model.rs, the loop under "new_name != df.name") *)
-(* The stored R1C1 text is parsed with self.parser in R1C1 lexer mode — with the ACTIVE locale and
-   language (this loop was not changed by 9f60d5e) —, the rename pass runs over the tree and
-   to_rc_format (English, decimal point) prints it. *)
+(* Since commit 0ec334c the loop saves self.locale / self.language, switches the parser to the
+   default (English) locale and language, parses the stored R1C1 text, runs the rename pass over
+   the tree, prints it with to_rc_format (English, decimal point) and restores the parser.  The
+   user's locale [dot_active] and language [nm_active] are arguments of the model and, as in the
+   code, have no influence on the result. *)
 Definition m_rc_of (dot : bool) : pmode := {| pm_rc := true; pm_xlsx := false; pm_dot := dot; pm_row := 1; pm_col := 1 |}.
 Section RenameNameInFormula.
-  Variable dot_active : bool.               (* the active locale has a decimal point *)
-  Variable nm_active nm_en : names.
+  Variable dot_active : bool.               (* the user's locale has a decimal point *)
+  Variable nm_active : names.               (* the user's language *)
+  Variable nm_en : names.                   (* get_default_language() *)
   Variable env : penv.
   Variable lower : text -> text.
   Variables (name : text) (scope : option Z) (new_name : text).
   Definition formula_after_name_rename (stored : list token) : list token :=
-    match parse (m_rc_of dot_active) nm_active env stored with
-    | Some (e, _) => print (m_rc_of true) nm_en (rename lower name scope new_name e)
-    | None => stored
-    end.
+    let saved := (dot_active, nm_active) in           (* let locale = self.locale; let language = self.language; *)
+    let parser := (true, nm_en) in                    (* set_locale(default); set_language(default) *)
+    let out :=
+      match parse (m_rc_of (fst parser)) (snd parser) env stored with
+      | Some (e, _) => print (m_rc_of true) nm_en (rename lower name scope new_name e)
+      | None => stored
+      end in
+    let _restored := saved in                         (* set_locale(locale); set_language(language) *)
+    out.
 End RenameNameInFormula.
